@@ -296,7 +296,7 @@ func fmtArgs(m *Machine, v value) string {
 func sprintfLike(m *Machine, format str, va value) str {
 	f, ok := format.concrete()
 	if !ok {
-		return format
+		return sprintfSymbolic(m, format, va)
 	}
 	var args []value
 	if s, ok := va.(slice); ok && s.len > 0 {
@@ -387,6 +387,65 @@ func sprintfLike(m *Machine, format str, va value) str {
 		}
 	}
 	return res
+}
+
+// sprintfSymbolic: a format string with symbolic bytes (data used as a format). Every symbolic byte is
+// decided to be '%' or not by a branch; after a '%', flag / width characters are skipped as fmt does and the
+// verb is reported as fmt reports a verb without operand (%!v(MISSING)), "%%" is a percent sign, a '%' at the
+// end is %!(NOVERB). Operands together with a symbolic format are not supported.
+func sprintfSymbolic(m *Machine, format str, va value) str {
+	if s, ok := va.(slice); ok && s.len > 0 {
+		panic(unsupported("fmt: symbolic format string with operands"))
+	}
+	bs := format.bytes()
+	is := func(t *Term, pred func(byte) bool, cond func(*Term) *Term) bool {
+		if t.isConst() {
+			return pred(byte(t.c))
+		}
+		return m.branch(cond(t), nil)
+	}
+	isPct := func(t *Term) bool {
+		return is(t, func(b byte) bool { return b == '%' }, func(t *Term) *Term { return mkEq(t, mkConst(8, '%')) })
+	}
+	isFlag := func(t *Term) bool {
+		return is(t, func(b byte) bool {
+			return b == '+' || b == '-' || b == '#' || b == ' ' || b == '.' || (b >= '0' && b <= '9')
+		}, func(t *Term) *Term {
+			c := mkAnd(mkCmp(opUle, mkConst(8, '0'), t), mkCmp(opUle, t, mkConst(8, '9')))
+			for _, ch := range []byte{'+', '-', '#', ' ', '.'} {
+				c = mkOr(c, mkEq(t, mkConst(8, uint64(ch))))
+			}
+			return c
+		})
+	}
+	var out []*Term
+	lit := func(x string) {
+		for i := 0; i < len(x); i++ {
+			out = append(out, mkConst(8, uint64(x[i])))
+		}
+	}
+	for i := 0; i < len(bs); i++ {
+		if !isPct(bs[i]) {
+			out = append(out, bs[i])
+			continue
+		}
+		i++
+		for i < len(bs) && isFlag(bs[i]) {
+			i++
+		}
+		if i >= len(bs) {
+			lit("%!(NOVERB)")
+			break
+		}
+		if isPct(bs[i]) {
+			lit("%")
+			continue
+		}
+		lit("%!")
+		out = append(out, bs[i])
+		lit("(MISSING)")
+	}
+	return mkStr(out)
 }
 
 func init() {
